@@ -107,3 +107,29 @@ def dimension(op, ka, kb):
         r = CROSS.get(("div", BASE_KIND[ka], BASE_KIND[kb]))
         return r if r else "TypeError"
     raise ValueError(op)
+
+
+# ---- L0 gear data (independent copy of the two tables shipped with the library, taken at the pinned commit: the standard
+# Lewis form factors for 20 deg full-depth teeth and the worm pressure-angle table).  The checks compare the CSV files
+# and the look-up functions built from them against these literals.
+LEWIS_TABLE = ((10, "0.201"), (11, "0.226"), (12, "0.245"), (13, "0.264"), (14, "0.276"), (15, "0.289"), (16, "0.295"), (17, "0.302"),
+               (18, "0.308"), (19, "0.314"), (20, "0.320"), (21, "0.325"), (22, "0.330"), (24, "0.337"), (26, "0.344"), (28, "0.352"),
+               (30, "0.358"), (32, "0.364"), (34, "0.370"), (36, "0.377"), (38, "0.383"), (40, "0.389"), (43, "0.394"), (45, "0.399"),
+               (50, "0.408"), (55, "0.415"), (60, "0.421"), (65, "0.425"), (70, "0.429"), (75, "0.433"), (80, "0.436"), (90, "0.442"),
+               (100, "0.446"), (150, "0.458"), (200, "0.463"), (300, "0.471"), (400, "0.478"), (500, "0.484"))
+WORM_TABLE = (("14.5", "16", "0.1"), ("20", "25", "0.125"), ("25", "35", "0.15"), ("30", "45", "0.175"))   # pressure angle, max helix, Lewis
+
+
+def lewis_reference(x):
+    """documented look-up: linear interpolation between the tabulated teeth numbers, clamped to the first / last tabulated
+    factor outside the table (exact rational arithmetic)"""
+    from fractions import Fraction
+    x = Fraction(x)
+    pts = [(Fraction(n), Fraction(y)) for n, y in LEWIS_TABLE]
+    if x <= pts[0][0]:
+        return pts[0][1]
+    if x >= pts[-1][0]:
+        return pts[-1][1]
+    for (x0, y0), (x1, y1) in zip(pts, pts[1:]):
+        if x0 <= x <= x1:
+            return y0 + (y1 - y0) * (x - x0) / (x1 - x0)
